@@ -136,6 +136,17 @@ int main(int argc, char **argv) {
     if (!strcmp(tool, "cc") || !strcmp(tool, "c++") || !strcmp(tool, "gcc") || !strcmp(tool, "g++"))
         return compiler(tool, argc, argv);
     if (!strcmp(tool, "ar")) return archiver(argc, argv);
+    if (!strcmp(tool, "gccw") || !strcmp(tool, "g++w")) {
+        /* logging wrapper around the real compiler (C07) */
+        int build = 0;
+        for (int i = 1; i < argc; i++)
+            if (!strcmp(argv[i], "-c") || !strcmp(argv[i], "-o")) build = 1;
+        if (build) log_invocation(tool, argc, argv);
+        const char *real = !strcmp(tool, "gccw") ? "/usr/bin/gcc" : "/usr/bin/g++";
+        argv[0] = (char *)(!strcmp(tool, "gccw") ? "gcc" : "g++");
+        execv(real, argv);
+        perror("stub: exec"); return 127;
+    }
     if (!strcmp(tool, "cp") || !strcmp(tool, "ln")) {
         /* logging wrappers around the real tools */
         log_invocation(tool, argc, argv);
